@@ -184,3 +184,134 @@ def run_jobs(jobs, flag_bits, procs=None):
     ctx = mp.get_context('fork')
     with ctx.Pool(procs, initializer=_init, initargs=(flag_bits,)) as pool:
         return list(pool.imap_unordered(_job, jobs, chunksize=16))
+
+
+# ---------------------------------------------------------------------------------------------
+# API-level differential run (C08 / C10): every entry x input x start offset x fullparse
+
+def _linecol(text, index):
+    if isinstance(text, bytes):
+        nl = b'\n'
+    else:
+        nl = '\n'
+    line = 1 + text.count(nl, 0, index)
+    col = 1 + index - (text.rfind(nl, 0, index) + 1)
+    return line, col
+
+
+def _job_api(job):
+    rr = _state['rr']
+    drv = _state['driver']
+    out = {'id': job['id'], 'text': job['text'], 'meta': job.get('meta'), 'mismatches': [], 'bm': bool(job.get('bm')),
+           'n_cases': 0, 'undefined': 0, 'outcomes': {}, 'unsupported': None, 'compile': 'ok',
+           'failpos_diff': 0, 'failpos_cmp': 0, 'instances': 0, 'shift_cases': 0, 'prep': None}
+    try:
+        with rr.time_limit(20):
+            module, rules = rr.compile_grammar(job['text'])
+    except Exception as exc:          # noqa: BLE001
+        out['compile'] = 'X ' + type(exc).__name__ + ': ' + str(exc)[:200]
+        return out
+    try:
+        w = rr.Wire(rules)
+        bodies, ign = w.program()
+    except rr.Unsupported as exc:
+        out['unsupported'] = str(exc)
+        return out
+    if w.bytes_mode is None:
+        w.bytes_mode = bool(job.get('bm'))
+    fuel = job.get('fuel', 96)
+    nl = b'\n' if w.bytes_mode else '\n'
+
+    def add(kind, entry, pos, text, full, real, gen, spec, extra=None):
+        if len(out['mismatches']) < 6:
+            m = {'kind': kind, 'entry': entry, 'pos': pos, 'input': _show(text), 'full': full,
+                 'real': real, 'gen': gen, 'peg': spec}
+            if extra:
+                m['detail'] = extra
+            out['mismatches'].append(m)
+        out['n_bad'] = out.get('n_bad', 0) + 1
+
+    for entry in job['entries']:
+        cases = job['cases']
+        eidx = w.index['start'] if entry == '__module__' else w.index[entry]
+        req = rr.core_request(w, bodies, ign, eidx, cases, fuel)
+        req = req[:-1] + ' (api))'
+        reply = drv.ask(req)
+        if reply.startswith('error'):
+            out['unsupported'] = 'driver: ' + reply
+            return out
+        items = reply.split(' ; ')
+        if entry == '__module__':
+            parse = module.parse
+        else:
+            parse = getattr(module, entry).parse
+        for (pos, text), item in zip(cases, items):
+            outs = rr.parse_outcomes(item)
+            g = {False: outs[0], True: outs[1]}
+            s = {False: outs[2], True: outs[3]}
+            for full in (False, True):
+                real, raw = rr.run_real_api(parse, text, pos, full)
+                out['n_cases'] += 1
+                key = real[0] if real[0] != 'X' else 'X:' + real[1]
+                out['outcomes'][key] = out['outcomes'].get(key, 0) + 1
+                if s[full][0] == 'U':
+                    out['undefined'] += 1
+                    continue
+                spec_ok = (real[0] == s[full][0] and (real[0] == 'E' or real[1:] == s[full][1:]))
+                model_ok = (real[0] == g[full][0] and (real[0] == 'E' or real[1:] == g[full][1:]))
+                if real[0] == 'E' and g[full][0] == 'E':
+                    out['failpos_cmp'] += 1
+                    if real[1] != g[full][1]:
+                        out['failpos_diff'] += 1
+                if not spec_ok:
+                    add('spec', entry, pos, text, full, real, g[full], s[full])
+                elif not model_ok:
+                    add('model', entry, pos, text, full, real, g[full], s[full])
+                # line / column of every instance and of the partial position (C10 / C09)
+                if job.get('check_linecol') and real[0] in ('V', 'P'):
+                    val = raw if real[0] == 'V' else raw.partial_result
+                    for inst in rr.instances(val):
+                        info = inst._metadata.position_info
+                        if info is None or not hasattr(info, 'start'):
+                            continue
+                        out['instances'] += 1
+                        for which in (info.start, info.end):
+                            if which.index < len(text) and text[which.index:which.index + 1] != nl:
+                                if (which.line, which.column) != _linecol(text, which.index):
+                                    add('spec', entry, pos, text, full, real, g[full], s[full],
+                                        f'instance {type(inst).__name__}: position {tuple(which)} but line/column of the index are {_linecol(text, which.index)}')
+                    if real[0] == 'P':
+                        lp = raw.last_position
+                        if text[lp.index:lp.index + 1] != nl and (lp.line, lp.column) != _linecol(text, lp.index):
+                            add('spec', entry, pos, text, full, real, g[full], s[full], f'last_position {tuple(lp)}')
+                # offset shift law on the implementation: parse(text, k) == shift_k(parse(text[k:], 0))
+                if job.get('check_shift') and pos > 0:
+                    real0, _ = rr.run_real_api(parse, text[pos:], 0, full)
+                    out['shift_cases'] += 1
+                    if _shift(real0, pos) != real:
+                        add('spec', entry, pos, text, full, real, g[full], ('shifted', _shift(real0, pos)),
+                            'parse(text, pos) differs from parse(text[pos:], 0) shifted by pos')
+    return out
+
+
+def _shift(outcome, k):
+    import re
+    def sh(val):
+        return re.sub(r'\(span (\d+) (\d+)\)', lambda m: f'(span {int(m.group(1)) + k} {int(m.group(2)) + k})', val)
+    if outcome[0] == 'V':
+        return ('V', sh(outcome[1]))
+    if outcome[0] == 'P':
+        return ('P', sh(outcome[1]), outcome[2] + k)
+    if outcome[0] == 'E':
+        return ('E', outcome[1] + k)
+    return outcome
+
+
+def run_jobs_api(jobs, flag_bits, procs=None):
+    procs = procs or min(16, os.cpu_count() or 4)
+    if len(jobs) < 8:
+        _init(flag_bits)
+        return [_job_api(j) for j in jobs]
+    ctx = mp.get_context('fork')
+    with ctx.Pool(procs, initializer=_init, initargs=(flag_bits,)) as pool:
+        return list(pool.imap_unordered(_job_api, jobs, chunksize=8))
